@@ -158,7 +158,7 @@ def run_property(prop, tier="quick", seed=0, only=None):
         ident = _vc_ident(vc, occ[key])
         rep.solver_s += r["time"]
         if vc.kind == "canary":
-            g = canary_groups.setdefault((vc.func, vc.label, vc.line), [])
+            g = canary_groups.setdefault((vc.func.split("[")[0], vc.label, vc.line), [])
             g.append(r["verdict"])
             continue
         rep.obligations += 1
